@@ -76,6 +76,32 @@ def main():
     proved = R.proof_step()
     n = 6000 if R.thorough else 60
     cases = list(CATALOGUE) + [gen_case(R.rng) for _ in range(n)]
+    # **kwargs / dict arguments sharing one annotation, three or more values, caller's key order different from sorted order
+    def gen_kw(rng):
+        dim = rng.choice(["*#batch", "*#batch", "*#b c", "#n", "n", "*b"])
+        keys = rng.sample(["w", "bias", "extra", "a", "zeta", "m"], rng.choice([3, 3, 4]))
+        base = [rng.choice([2, 3, 4]) for _ in range(2)]
+        kw = []
+        for k in keys:
+            if dim in ("*#batch", "*b"):
+                sh = rng.choice([[base[0]], [1], [base[1], base[0]], [1, base[0]], [base[0] + 1]])
+            elif dim == "*#b c":
+                sh = rng.choice([[base[0], 5], [1, 5], [5], [base[0] + 1, 5]])
+            else:
+                sh = [rng.choice([1, base[0], base[0], base[0] + 1])]
+            kw.append([k, sh])
+        return {"kind": rng.choice(["kwargs", "dictarg"]), "dim": dim, "kw": kw, "checker": "typeguard"}      # (beartype samples containers and skips **kwargs: not a deterministic oracle here)
+    cases += [{"kind": "kwargs", "dim": "*#batch", "kw": [["w", [3]], ["bias", [1]], ["extra", [4]]], "checker": "typeguard"},
+              {"kind": "dictarg", "dim": "*#batch", "kw": [["w", [3]], ["bias", [1]], ["extra", [4]]], "checker": "typeguard"},
+              {"kind": "kwargs", "dim": "*#batch", "kw": [["w", [1]], ["bias", [3]], ["a", [1, 3]]], "checker": "typeguard"}]
+    # a Union of annotations one of which is SYMBOLIC in an axis the other binds: which alternative a value takes depends on what was
+    # checked before it, and jit re-orders keyword arguments (known finding F-C17-union-kwargs-order)
+    cases.append({"kind": "kwargs", "dim": "n | n+1", "dims": ["n", "n+1"], "kw": [["b", [3]], ["a", [4]]], "checker": "typeguard"})
+    cases += [gen_kw(R.rng) for _ in range(600 if R.thorough else 16)]
+    for first in ("jit", "eval_shape", "grad", "vmap_all"):
+        for chk in ("typeguard", "beartype"):
+            cases.append({"kind": "pytree_first_traced", "dim": "n", "leaf": [3], "x": [3], "first": first, "checker": chk})
+            cases.append({"kind": "pytree_first_traced", "dim": "n", "leaf": [3], "x": [4], "first": first, "checker": chk})
     nw = 8
     chunks = [cases[i::nw] for i in range(nw)]
     from concurrent.futures import ThreadPoolExecutor
@@ -88,7 +114,11 @@ def main():
     duck = outs[0]["duck_log"]
     nev, nontriv, samples = 0, set(), []
     for c, r in zip(cases, res):
-        desc = "f(%s)%s shapes %s" % (", ".join("%s: %s" % (p[0], "Int[Array,''] = %s" % p[2] if p[1] == "int0d" else "%s[Array,%r] %s" % (p[3], p[1], p[2])) for p in c["params"]), " -> Float[Array,%r]" % c["ret"] if c["ret"] else "", c["shapes"])
+        if c.get("kind") == "pytree_first_traced":
+            c.setdefault("params", []); c.setdefault("ret", None); c.setdefault("shapes", {"leaves": c["leaf"], "x": c["x"]}); c.setdefault("kw", []); c.setdefault("dim", c["dim"])
+        if c.get("kind") in ("kwargs", "dictarg"):
+            c.setdefault("params", []); c.setdefault("ret", None); c.setdefault("shapes", dict((k, sh) for k, sh in c["kw"]))
+        desc = ("" if not c.get("kind") else ("f(t: PyTree[Float[Array,%r]], x: Float[Array,%r]) -> same, first ever call under " + c["first"] + " inside jax.checking_leaks(); ") % (c["dim"], c["dim"]) if c["kind"] == "pytree_first_traced" else ("f(**terms: Float[Array,%r])" if c["kind"] == "kwargs" else "f(terms: dict[str, Float[Array,%r]])") % c["dim"] + " called with keys in the order %s; " % [k for k, _ in c["kw"]]) + "f(%s)%s shapes %s" % (", ".join("%s: %s" % (p[0], "Int[Array,''] = %s" % p[2] if p[1] == "int0d" else "%s[Array,%r] %s" % (p[3], p[1], p[2])) for p in c["params"]), " -> Float[Array,%r]" % c["ret"] if c["ret"] else "", c["shapes"])
         if "decorate" in r:
             R.violation("correspondence", "could not decorate: %s (%s)" % (r["decorate"], desc), {"case": c}, key={"kind": "decorate"}, no_input=True); continue
         e = r["eager"]
@@ -102,10 +132,10 @@ def main():
                 if v.startswith("TRACER-FORCED"):
                     R.violation("property", "checking forced a tracer to a concrete value under %s: %s (%s)" % (how, v, desc), {"case": c, "how": how, "got": v}, key={"kind": "tracer-forced", "how": how})
                 elif v != e[fill] and not (how.startswith("vmap") or how == "jit_vmap"):
-                    R.violation("property", "under %s the call is `%s` but the same call executed eagerly is `%s` (%s)" % (how, v, e[fill], desc), {"case": c, "how": how, "traced": v, "eager": e[fill]}, key={"kind": "traced-differs", "how": how})
+                    R.violation("property", "under %s the call is `%s` but the same call executed eagerly is `%s` (%s)" % (how, v, e[fill], desc), {"case": c, "how": how, "traced": v, "eager": e[fill]}, key={"kind": "traced-differs", "how": how, "annotation": "union-of-symbolic" if c.get("dims") else "plain"})
                 elif (how.startswith("vmap") or how == "jit_vmap") and how != "vmap_first" and v != e[fill] and not v.startswith("other"):
                     # vmap over every argument: the function sees the per-example shapes, i.e. exactly the eager call
-                    R.violation("property", "under %s (per-example shapes = the eager shapes) the call is `%s`, eagerly `%s` (%s)" % (how, v, e[fill], desc), {"case": c, "how": how, "traced": v, "eager": e[fill]}, key={"kind": "traced-differs", "how": how})
+                    R.violation("property", "under %s (per-example shapes = the eager shapes) the call is `%s`, eagerly `%s` (%s)" % (how, v, e[fill], desc), {"case": c, "how": how, "traced": v, "eager": e[fill]}, key={"kind": "traced-differs", "how": how, "annotation": "union-of-symbolic" if c.get("dims") else "plain"})
         nontriv.add(json.dumps(c, sort_keys=True))
         if len(samples) < 3 and len(c["params"]) >= 2:
             samples.append({"case": c, "eager": e, "traced": {h: d["zeros"] for h, d in r["traced"].items()}})
